@@ -792,10 +792,9 @@ fn blackhole_part(args: &Args, report: &mut Report) {
                         }
                     }
                     _ => {
-                        // stagger = 2000 ms / 2 = 1000 ms: the listening candidate must not be tried before ~1000 ms
-                        if result.is_ok() && ms + 60 < 1000 {
-                            p.violation("public:second-attempt-before-stagger-delay", format!("{name}: connected after {ms} ms although the stagger delay is 1000 ms and the first candidate had not failed"), replay.clone());
-                        }
+                        // How TcpConnecting derives its stagger delay from the overall timeout (today: timeout / n) is not
+                        // fixed by the property, so "not earlier than the stagger delay" is judged only where the delay
+                        // is an input: on the scripted EyeballSet. Here only the deadline is.
                         if ms > 2000 + 1200 {
                             p.violation("public:deadline-not-enforced:two-candidates", format!("{name}: finished after {ms} ms with an overall deadline of 2000 ms (best of three runs)"), replay.clone());
                         }
